@@ -355,3 +355,56 @@ theorem pending_sublist (cfg : Cfg) (all : List MFile) (revs : List Revision) (l
 
 
 end Atlas.Pending
+
+/-! ### `ExecuteTo` -/
+
+namespace Atlas.Pending
+
+
+/-- what `ExecuteTo` executes is a sub-sequence of the directory. -/
+theorem executeTo_sublist (cfg : Cfg) (all : List MFile) (revs : List Revision) (v : String) (l : List MFile)
+    (h : executeTo cfg all revs v = some (.ok l)) : l.Sublist all := by
+  unfold executeTo at h
+  split at h
+  · cases h
+  · rename_i idx _
+    split at h
+    · simp only [Option.some.injEq] at h
+      exact (pending_sublist cfg _ revs l h).trans (List.take_sublist _ _)
+    · split at h
+      · cases h
+      · rename_i p hp
+        split at h
+        · cases h
+        · simp only [Option.some.injEq, Except.ok.injEq] at h
+          subst h
+          exact (List.take_sublist _ _).trans (pending_sublist cfg all revs p hp)
+
+/-- with a checkpoint behind the target, nothing behind the target is executed. -/
+theorem executeTo_before_checkpoint (cfg : Cfg) (all : List MFile) (revs : List Revision) (v : String) (idx : Nat)
+    (l : List MFile) (hi : lastIndex (fun f => f.version == v) all = some idx)
+    (hck : (all.drop (idx + 1)).any (fun f => f.checkpoint) = true)
+    (h : executeTo cfg all revs v = some (.ok l)) : l.Sublist (all.take (idx + 1)) := by
+  unfold executeTo at h
+  simp only [hi, hck, ↓reduceIte, Option.some.injEq] at h
+  exact pending_sublist cfg _ revs l h
+
+/-- without one, what is executed is a prefix of what `Pending` returns, and it ends with the target. -/
+theorem executeTo_prefix (cfg : Cfg) (all : List MFile) (revs : List Revision) (v : String) (idx : Nat)
+    (l : List MFile) (hi : lastIndex (fun f => f.version == v) all = some idx)
+    (hck : (all.drop (idx + 1)).any (fun f => f.checkpoint) = false)
+    (h : executeTo cfg all revs v = some (.ok l)) :
+    ∃ p i, (pending cfg all revs).out = .ok p ∧ lastIndex (fun f => f.version == v) p = some i ∧ l = p.take (i + 1) := by
+  unfold executeTo at h
+  simp only [hi, hck, Bool.false_eq_true, ↓reduceIte] at h
+  split at h
+  · cases h
+  · rename_i p hp
+    split at h
+    · cases h
+    · rename_i i hidx
+      simp only [Option.some.injEq, Except.ok.injEq] at h
+      exact ⟨p, i, hp, hidx, h.symm⟩
+
+
+end Atlas.Pending
